@@ -16,7 +16,11 @@ func (tb *tokenBucket) adjustOnFailure(statusCode int) {
 	// For rate limiting errors, impose a penalty period.
 	case statusCode == 429 || statusCode == 403 || statusCode == 408 || statusCode == 425:
 		tb.failureCount++
-		penalty := min(time.Duration(float64(basePenaltyDuration)*math.Pow(2, float64(tb.failureCount-1))), maxPenaltyDuration)
+		// The penalty doubles with every further failure and is capped. 5s * 2^3 already
+		// exceeds the cap, so clamp the exponent: for long failure streaks the float64 product
+		// would overflow int64 and turn into a negative penalty.
+		exponent := min(tb.failureCount-1, 3)
+		penalty := min(time.Duration(float64(basePenaltyDuration)*math.Pow(2, float64(exponent))), maxPenaltyDuration)
 		tb.penaltyUntil = now.Add(penalty)
 		// Optionally, clear tokens to prevent immediate further requests.
 		tb.tokens = 0
@@ -24,7 +28,9 @@ func (tb *tokenBucket) adjustOnFailure(statusCode int) {
 	// For server errors like 503 or 5xx, reduce the refill rate exponentially.
 	case statusCode >= 500:
 		tb.failureCount++
-		newRefillRate := max(tb.refillRate*math.Pow(0.5, float64(tb.failureCount)), minRefillRate)
+		// Never raise the rate above the configured one: the floor is the lower of
+		// minRefillRate and the ideal rate.
+		newRefillRate := max(tb.refillRate*math.Pow(0.5, float64(tb.failureCount)), min(minRefillRate, tb.idealRate))
 		tb.refillRate = newRefillRate
 		tb.tokens = 0
 
